@@ -672,6 +672,10 @@ def spec_table_alloc_2(ctx, make_exe):
     return _run_table(ctx, make_exe, [[1, 1]], 4, 8, _post_table)
 
 
+def spec_table_alloc_1(ctx, make_exe):
+    return _run_table(ctx, make_exe, [[1]], 4, 8, _post_table)
+
+
 def spec_table_alloc_3(ctx, make_exe):
     return _run_table(ctx, make_exe, [[1, 1, 1]], 2, 6, _post_table)
 
@@ -4907,6 +4911,10 @@ ALL = [
          assumptions=["cell size estimates are preset symbolic values", "start_block / add_horizontal_border_width succeed",
                       "into_rows is observed (arguments captured), not executed", "iterator adaptors by contract over vectors of concrete length"],
          replay=replay_table_alloc),
+    Spec("table_alloc_1col", ["C01", "C06", "C02"], spec_table_alloc_1,
+         functions=["render_table_tree (whole function)"],
+         bounds="1 row x 1 column (no separator: the only shape in which a zero table width is not caught by the minimum-width test); cell size <= 4, table width <= 8",
+         assumptions=["as table_alloc_2col"], replay=replay_table_alloc),
     Spec("table_alloc_span_only", ["C06", "C03"], spec_table_alloc_span_only,
          functions=["render_table_tree (whole function)"],
          bounds="one row with a single colspan=2 cell over 2 columns; cell size <= 2, table width <= 5",
